@@ -18,14 +18,16 @@ def get_tu():
 
 
 def build_c(run):
-    tu = get_tu()
-    e = tu.enum_by_name
-    K.verify(run, ID, tu, CT.DataRxSafety(e["VERIF_EINVAL"], e["VERIF_ENOTSUP"], e["VERIF_TRXD_BUF_SIZE"]))
-    K.verify(run, ID, tu, CT.MeasureRspCb)
-    K.verify(run, ID, tu, CT.CtrlReadCb)
+    def data():
+        tu = get_tu()
+        e = tu.enum_by_name
+        K.verify(run, ID, tu, CT.DataRxSafety(e["VERIF_EINVAL"], e["VERIF_ENOTSUP"], e["VERIF_TRXD_BUF_SIZE"]))
+        run.extra["verbatim_extraction"] = tu.extraction
+    K.sect(run, "trx_data_rx_cb", data)
+    K.sect(run, "trx_if_measure_rsp_cb", lambda: K.verify(run, ID, get_tu(), CT.MeasureRspCb))
+    K.sect(run, "trx_ctrl_read_cb", lambda: K.verify(run, ID, get_tu(), CT.CtrlReadCb))
     run.assume("representation invariant of trx->trx_ctrl_list: every queued struct trx_ctrl_msg is a live talloc object whose cmd[] "
                "holds a NUL-terminated string of 4..1022 octets (built by trx_ctrl_cmd with snprintf)")
-    run.extra["verbatim_extraction"] = tu.extraction
     K.finish(run)
 
 
